@@ -396,7 +396,18 @@ impl<'a> Sem<'a> {
 
     /// optional doc comment directly above the statement about to be written
     fn doc_comment(&mut self) -> Option<String> {
-        match self.rng.below(6) {
+        match self.rng.below(7) {
+            6 => {
+                // text that begins with a slash itself (a path, a commented-out comment) or holds some
+                let a = match self.rng.below(3) {
+                    0 => self.fresh("/usr/share/doc/"),
+                    1 => self.fresh("// FIXME: old "),
+                    _ => self.fresh("/enc/ is a key, see a//b "),
+                };
+                self.w(&format!("// {a}"));
+                self.nl();
+                Some(a)
+            }
             0 => {
                 let a = self.fresh("doc line ");
                 self.w(&format!("// {a}"));
